@@ -349,8 +349,8 @@ class C06(Prop):
                 m_ok = False
             model_ok = model_ok and m_ok
         feats = self.fit_features(case, clean_rows, fitted, hyp, check_rsq)
-        if dominant and feats:
-            feats = set(feats) | {"dominant-weight>1e12(r2 not compared)"}
+        if dominant:  # always counted in the evidence; only r² is skipped, gradient/intercept are still compared
+            feats = set(feats) | {"dominant-weight(1-Σw²/(Σw)²<1e-12: r2 not compared)"}
         return outcome({"variants": impl}, {"variants": model}, {"variants": spec}, spec_ok=spec_ok, model_ok=model_ok,
                        undetermined=undet, hyp=(hyp or not fitted), features=feats,
                        note=f"variants: clean, given, {len(case['perms'])} permutations")
